@@ -3649,7 +3649,7 @@ impl Zeroconf {
         // Only add retransmission if it does not exceed the hostname resolver timeout, if any.
         if self
             .hostname_resolvers
-            .get(&hostname)
+            .get(&hostname.to_lowercase())
             .and_then(|(_sender, timeout)| *timeout)
             .map(|timeout| next_time < timeout)
             .unwrap_or(true)
@@ -3801,8 +3801,8 @@ impl Zeroconf {
             trace!("StopResolve: removed queryer for {}", &host);
             let mut i = 0;
             while i < self.retransmissions.len() {
-                if let Command::Resolve(t, _) = &self.retransmissions[i].command {
-                    if t == &host {
+                if let Command::ResolveHostname(t, _, _, _) = &self.retransmissions[i].command {
+                    if t.to_lowercase() == host {
                         self.retransmissions.remove(i);
                         trace!("StopResolve: removed retransmission for {}", &host);
                         continue;
